@@ -4,6 +4,10 @@ import json, os, subprocess
 ROOT = os.path.dirname(os.path.dirname(os.path.abspath(__file__)))
 
 CHECKS = {
+    "C18": dict(level="model_checking", design="DESIGN.md section 5 C18",
+                technique="TLC model checking of Files.tla (handle table, store) + TLC validation of recorded file histories (stdout, file bytes, result)",
+                text="D: TLC explores every history of up to 6 (7) operations (OPEN in three modes, PRINT #, LINE INPUT #, EOF, CLOSE, CLOSE all, KILL) over two handles and two names and checks the handle-table / cursor invariants, that an error changes nothing but the status, that OUTPUT truncates and APPEND keeps, that PRINT # appends exactly text + CR LF, that CLOSE frees the handle and that EOF is true exactly at the end. V: straight-line programs in a scratch directory - write/close/read-back with every mix of LINE INPUT # / INPUT # incl. a read past the end, OUTPUT vs APPEND, all protocol histories of 1-2 operations and seeded ones of 3-8 over a 31-operation alphabet, RANDOM files (FIELD/LSET/PUT/GET, records in random order), console INPUT / LINE INPUT on the same texts - are run on the real interpreter; TLC runs Files.tla on each recorded history and compares stdout, the bytes of every file afterwards and the final result (codes 55/53/62 exactly, any file error 50..76 for closed / wrong-mode handles).",
+                note="Trusted: host file system in a private directory, renderer, TLC. Not judged (left open by the property): same file on two handles, re-opening an existing file FOR RANDOM, KILL/NAME of open files, pad byte of LSET (NUL read as blank), unwritable names."),
     "C16": dict(level="model_checking", design="DESIGN.md section 5 C16",
                 technique="TLC model checking of the column machine (Print.tla) + TLC validation of recorded PRINT histories (bytes on screen, printer, two files)",
                 text="D: over all histories of two PRINT statements built from an alphabet of items (numbers, empty/short/13-14-15-character strings, a string with an embedded CR) and separators in every position on three devices, TLC checks that the column equals the characters since the last break on that device, that a comma lands on a multiple of 14, that a statement without trailing separator ends the line and that other devices are untouched. V: the real interpreter prints item lists (numbers of every type and sign, strings incl. embedded CR/LF, leading/trailing/consecutive separators) to the screen, LPT1 and two files, alone, after pending statements on the same/another device and in random histories; PRINT USING with all formats up to length 3 (5) over {# , . \\ blank ! x}; TLC runs Print.tla on each recorded history (column invariant in every state) and compares the bytes of all four devices.",
